@@ -362,16 +362,21 @@ HandleFutureVote(x, kind, msg) ==
                                               ELSE [rec EXCEPT !.pc = merged, !.pcKH = msg.pkh]
               IN W([x EXCEPT !.res = "FutureVerified"], PutRound(x.st, msg.h, msg.r, rec2))
 
-\* one complete Handle{Prevote,Precommit}Proofs call with no concurrent caller
-HandleVote(x, kind, msg) ==
-  IF DOMAIN msg.proofs = {} THEN [x EXCEPT !.res = "Empty"]
+\* The two phases of Handle{Prevote,Precommit}Proofs.  Phase 1 [ViewLookupRequest]: the kernel copies the view the
+\* message belongs to (Snap).  Phase 2, on the caller's goroutine and then in the kernel [AddPrevote/PrecommitRequest]:
+\* the signatures to add are computed from that COPY and handed to the kernel together with the per-target versions
+\* the copy had; the kernel applies only the targets whose version is unchanged (Conflict otherwise: the caller
+\* looks up again and retries).  Another caller may run between the two phases (MirrorConcMC.tla).
+Snap(k, msg) ==
+  LET fv == FindView(k, msg.h, msg.r)
+  IN [status |-> fv.status, view |-> IF fv.status = "Found" THEN GetView(k, fv.slot) ELSE ZeroView]
+
+HandleVoteSnap(x, kind, msg, snap) ==
+  IF snap.status = "PANIC" THEN Panic(x, "TODO: unhandled attempt to find view")
+  ELSE IF snap.status = "Future" THEN HandleFutureVote(x, kind, msg)
+  ELSE IF snap.status # "Found" THEN [x EXCEPT !.res = "RoundTooOld"]
   ELSE
-  LET fv == FindView(x.k, msg.h, msg.r)
-  IN IF fv.status = "PANIC" THEN Panic(x, "TODO: unhandled attempt to find view")
-     ELSE IF fv.status = "Future" THEN HandleFutureVote(x, kind, msg)
-     ELSE IF fv.status # "Found" THEN [x EXCEPT !.res = "RoundTooOld"]
-     ELSE
-      LET view == GetView(x.k, fv.slot)
+      LET view == snap.view
       IN IF msg.pkh # view.vs THEN [x EXCEPT !.res = "BadPubKeyHash"]
          ELSE LET toAdd == SigsToAdd(view, kind, msg)
               IN IF DOMAIN toAdd = {} THEN [x EXCEPT !.res = "NoNewSignatures"]
@@ -382,7 +387,14 @@ HandleVote(x, kind, msg) ==
                           upd == [t \in incT |-> mg[t]]
                           allValid == \A t \in DOMAIN toAdd : \A e \in toAdd[t] : e.cls = "ok"
                       IN IF incT = {} THEN [x EXCEPT !.res = IF allValid THEN "NoNewSignatures" ELSE "BadSignature"]
-                         ELSE AddVote(x, kind, msg.h, msg.r, upd, VersOf(view, kind))
+                         ELSE \* the round may have been left between the two phases: AddVoteOutOfDate is reported as RoundTooOld
+                              LET y == AddVote(x, kind, msg.h, msg.r, upd, VersOf(view, kind))
+                              IN IF y.pan = "" /\ y.res = "OutOfDate" THEN [y EXCEPT !.res = "RoundTooOld"] ELSE y
+
+\* one complete Handle{Prevote,Precommit}Proofs call with no concurrent caller
+HandleVote(x, kind, msg) ==
+  IF DOMAIN msg.proofs = {} THEN [x EXCEPT !.res = "Empty"]
+  ELSE HandleVoteSnap(x, kind, msg, Snap(x.k, msg))
 
 -----------------------------------------------------------------------------
 (* ---- proposed headers [Mirror.HandleProposedHeader, Kernel.sendPHCheckResponse,
